@@ -170,7 +170,7 @@ func buildCases(c *core.Ctx) []kase {
 		for n := 0; n < 60; n++ {
 			ks = append(ks, kase{part: "countof", size: n, rep: rep})
 		}
-		if rep < 2 {
+		if rep == 0 {
 			for b, bv := range badValues() {
 				for mi := range modes {
 					ks = append(ks, kase{part: "headbad", bad: b, mode: mi, rep: rep})
